@@ -692,7 +692,7 @@ func sameEntryDepth(a, b ssa.Value, depth int, seen map[ssa.Value]bool) bool {
 // length guard or by the known length of every argument.
 func (c *Ctx) RuleIdxParam() *Result {
 	res := &Result{Rule: "IDX-PARAM", MinInst: 1}
-	scope := c.reachFromNamed(func(n string) bool { return n == "(*regex/operators.Operator).Run" })
+	scope := c.inputScope()
 	for _, fn := range c.P.RepoFns {
 		if !scope[load.FnName(fn)] {
 			continue
@@ -1411,7 +1411,7 @@ func (c *Ctx) stringIndexGuarded(v ssa.Value, k int64, at ssa.Instruction, depth
 // reachable from Operator.Run, needs a length test in the function or at every caller.
 func (c *Ctx) RuleStrIndex() *Result {
 	res := &Result{Rule: "STR-INDEX", MinInst: 0}
-	scope := c.reachFromNamed(func(n string) bool { return n == "(*regex/operators.Operator).Run" })
+	scope := c.inputScope()
 	n := 0
 	for _, fn := range c.P.RepoFns {
 		if !scope[load.FnName(fn)] {
@@ -2390,4 +2390,21 @@ func flowsIntoPhiThroughAppend(v ssa.Value, target *ssa.Phi, depth int) bool {
 		}
 	}
 	return false
+}
+
+// inputScope: the functions through which the text of an assembly file (or
+// standard input) travels: everything reachable from Operator.Run and from the
+// entry points of generate, update and compare.
+func (c *Ctx) inputScope() map[string]bool {
+	scope := c.reachFromNamed(func(n string) bool { return n == "(*regex/operators.Operator).Run" })
+	for _, name := range []string{"generate", "update", "compare"} {
+		if cmd := c.Commands().ByName[name]; cmd != nil {
+			for fn := range c.Graph().Reach(c.EntryRoots(cmd)) {
+				if c.P.IsRepoFn(fn) {
+					scope[load.FnName(fn)] = true
+				}
+			}
+		}
+	}
+	return scope
 }
